@@ -35,6 +35,13 @@ fn retrievals(bufs: &[usize]) -> Vec<Step> {
             if !(kind == XKind::HardLink && fl == Fl::Async) {
                 v.push(Step { op: Op::Extract { kind, checked: true, by: By::Addr(a), dest: Dest::Absent }, fl });
             }
+            // a destination on another filesystem (a hard link cannot be made there)
+            if kind != XKind::Reflink {
+                v.push(Step { op: Op::Extract { kind, checked: true, by: By::Key(0), dest: Dest::OtherFs }, fl });
+                if !(kind == XKind::HardLink && fl == Fl::Async) {
+                    v.push(Step { op: Op::Extract { kind, checked: true, by: By::Addr(a), dest: Dest::OtherFs }, fl });
+                }
+            }
         }
     }
     v
@@ -164,6 +171,8 @@ impl Engine for C01 {
             let ok = match &r.out {
                 Out::Bytes(n, hx) => (*n, hx.clone()) == want0,
                 Out::Extracted { dest: DestState::File(n, hx), .. } => (*n, hx.clone()) == want0,
+                // a hard link onto another filesystem may fail
+                Out::ExtractErr { kind: ErrKind::Io { .. }, .. } => matches!(step.op, Op::Extract { kind: XKind::HardLink, dest: Dest::OtherFs, .. }),
                 _ => false,
             };
             if !ok {
